@@ -161,9 +161,9 @@ fn huge_table_case(ctx: &mut Ctx) {
         let len = buf.len();
         let mut r = crate::rng::Rng::new(seed);
         let base: usize = match r.below(4) {
-            0 => (1usize << 32) - 24,
-            1 => (1usize << 32) - 1 - r.usize_below(8),
-            2 => 1usize << 32,
+            0 => super::util::G4.wrapping_sub(24),
+            1 => super::util::G4.wrapping_sub(1 + r.usize_below(8)),
+            2 => super::util::G4,
             _ => len - 48,
         };
         // a few short strings of boundary-heavy bytes, NUL separated; the last one may reach the end unterminated
@@ -203,7 +203,7 @@ fn run(ctx: &mut Ctx, si: usize, case: u64) {
             }
             // offsets beyond 2^32 whose low bits fall inside the table (64-bit targets)
             #[cfg(target_pointer_width = "64")]
-            for hi in [1usize << 32, 1 << 33, 0xffff_ffff << 32, 1 << 63] {
+            for hi in [super::util::G4, 1 << 33, 0xffff_ffff << 32, 1 << 63] {
                 for lo in 0..=table.len() {
                     ctx.count("offset>=2^32-with-low-bits-in-table");
                     check_lookup(ctx, &table, hi | lo);
